@@ -377,6 +377,7 @@ sp_sgemv(char *trans, float alpha, SuperMatrix *A, float *x,
 
     /* Local variables */
     NCformat *Astore;
+    int_t    *colbeg, *colend; /* column j is [colbeg[j], colend[j]) */
     float   *Aval;
     int info;
     float temp;
@@ -386,6 +387,13 @@ sp_sgemv(char *trans, float alpha, SuperMatrix *A, float *x,
 
     notran = lsame_(trans, "N");
     Astore = A->Store;
+    if ( A->Stype == SLU_NCP ) { /* column-permuted view: own begin/end arrays */
+	colbeg = ((NCPformat*) A->Store)->colbeg;
+	colend = ((NCPformat*) A->Store)->colend;
+    } else {
+	colbeg = Astore->colptr;
+	colend = Astore->colptr + 1;
+    }
     Aval = Astore->nzval;
     
     /* Test the input parameters */
@@ -450,7 +458,7 @@ sp_sgemv(char *trans, float alpha, SuperMatrix *A, float *x,
 	    for (j = 0; j < A->ncol; ++j) {
 		if (x[jx] != 0.) {
 		    temp = alpha * x[jx];
-		    for (i = Astore->colptr[j]; i < Astore->colptr[j+1]; ++i) {
+		    for (i = colbeg[j]; i < colend[j]; ++i) {
 			irow = Astore->rowind[i];
 			y[irow] += temp * Aval[i];
 		    }
@@ -466,7 +474,7 @@ sp_sgemv(char *trans, float alpha, SuperMatrix *A, float *x,
 	if (incx == 1) {
 	    for (j = 0; j < A->ncol; ++j) {
 		temp = 0.;
-		for (i = Astore->colptr[j]; i < Astore->colptr[j+1]; ++i) {
+		for (i = colbeg[j]; i < colend[j]; ++i) {
 		    irow = Astore->rowind[i];
 		    temp += Aval[i] * x[irow];
 		}
